@@ -74,6 +74,9 @@ func Lib() *ty.Env {
 	e.Decls[nsc].Methods = "Cs"
 	ud := add("UD", "", ty.St(f("A", b("int")), f("B", ty.Sl(b("int")))), false) // 38: declares its own DeepCopy
 	e.Decls[ud].Methods = "Dp"
+	ue3 := add("UE3", "", ty.St(f("A", b("int")), f("B", b("string"))), false) // 39: Equal / Compare take an interface{}
+	e.Decls[ue3].Methods = "Ei.Ci"
+	add("UW3", "", ty.St(f("P", ty.P(ty.N(39))), f("V", ty.N(39)), f("L", ty.Sl(ty.N(39)))), false) // 40
 	return e
 }
 
@@ -241,6 +244,11 @@ func MethodSrc(d *ty.Decl) string {
 			// on a named string: a Compare that is coarser than the natural order (every pair ties). Sort, keys and
 			// hash order such keys with <, never with this method; only the compare plugin would call it.
 			src += fmt.Sprintf("func (this %[1]s) Compare(that %[1]s) int { return 0 }\n\n", n)
+		case "Ei":
+			// the parameter is an interface: the generator passes the pointer, as for a pointer parameter
+			src += fmt.Sprintf("func (this *%[1]s) Equal(other interface{}) bool {\n\tthat, _ := other.(*%[1]s)\n\tif this == nil || that == nil {\n\t\treturn this == nil && that == nil\n\t}\n\treturn this.A == that.A\n}\n\n", n)
+		case "Ci":
+			src += fmt.Sprintf("func (this *%[1]s) Compare(other interface{}) int {\n\tthat, _ := other.(*%[1]s)\n\tif this == nil {\n\t\tif that == nil {\n\t\t\treturn 0\n\t\t}\n\t\treturn -1\n\t}\n\tif that == nil {\n\t\treturn 1\n\t}\n\tif this.A < that.A {\n\t\treturn -1\n\t}\n\tif this.A > that.A {\n\t\treturn 1\n\t}\n\treturn 0\n}\n\n", n)
 		case "Dp":
 			// DeepCopy written by hand exactly as the derived function copies these two fields (same reuse of the
 			// destination's backing array, same allocations): the models need not know the method exists, while the
